@@ -194,6 +194,28 @@ pub fn replay(cases: &[Value], out: &mut Out) {
 						json!({"frames": frames.iter().map(|f| String::from_utf8_lossy(f).into_owned()).collect::<Vec<_>>(), "chunked": [r.status, String::from_utf8_lossy(&r.body)], "single": [r1.status, String::from_utf8_lossy(&r1.body)]}),
 					));
 				}
+				// the same frames followed by a frame of blanks that takes the body over max_request_body_size (no Content-Length:
+				// the limit is only found while reading): refused, no handler, and the same answer as for the one-chunk body
+				if c["case"]["cl"] == json!(false) && matches!(bodyc, "call" | "batch" | "notif") {
+					let mut over = frames.clone();
+					over.push(vec![b' '; 300]);
+					let over_concat: Vec<u8> = over.iter().flatten().cloned().collect();
+					small.take_log();
+					let ra = small.http("POST", &hs, over).await;
+					let la = small.take_log();
+					let rb = small.http("POST", &hs, vec![over_concat]).await;
+					let lb = small.take_log();
+					if !la.is_empty() || !lb.is_empty() {
+						probs.push(("chunks:over-the-request-limit:handler-ran".into(), json!({"status": [ra.status, rb.status], "log": [la, lb]})));
+					} else if ra.status != rb.status || ra.body != rb.body {
+						probs.push((
+							format!("chunks:over-the-request-limit:answer-differs-from-single-chunk:{}-vs-{}", classify(&ra), classify(&rb)),
+							json!({"chunked": [ra.status, String::from_utf8_lossy(&ra.body)], "single": [rb.status, String::from_utf8_lossy(&rb.body)]}),
+						));
+					} else if ra.status == 200 {
+						probs.push(("chunks:over-the-request-limit:answered-200".into(), json!({"body": String::from_utf8_lossy(&ra.body)})));
+					}
+				}
 				let exp = c["answer"].as_str().unwrap();
 				if exp != "differential" {
 					let want = match exp {
